@@ -71,7 +71,7 @@ MAP_ROWS = {
     'C09': ['iter:', 'iter_mut:', 'keys:', 'values:', 'values_mut:', 'adaptor:iter:nth', 'adaptor:values_mut:fold', 'adaptor:iter_mut:count', 'adaptor:keys:step_by(2)', 'adaptor:values:last'],
     'C10': ['drain:', 'into_iter:', 'into_keys:', 'into_values:', 'adaptor:drain:nth', 'adaptor:drain:skip', 'adaptor:into_iter:last', 'adaptor:into_keys:fold', 'adaptor:into_values:step_by(2)'],
     'C12': ['insert:', 'insert_key_value:', 'checked_insert:', 'remove_entry:', 'entry.'],
-    'C15': ['clone:', 'drop-copy'],
+    'C15': ['clone:', 'drop-copy', 'clone_from:target-longer', 'clone_from:target-shorter', 'clone_from:same-length'],
     'C19': ['fmt:map-debug', 'fmt:map-alt-debug', 'fmt:map-display', 'fmt:Iter:', 'fmt:IterMut', 'fmt:Keys', 'fmt:Values:',
             'fmt:ValuesMut', 'fmt:IntoIter', 'fmt:IntoKeys', 'fmt:Drain'],
 }
@@ -82,7 +82,7 @@ SET_ROWS = {
     'C09': ['set-iter:', 'adaptor:iter:nth', 'adaptor:iter:fold'],
     'C10': ['drain:', 'into_iter:', 'adaptor:drain:nth', 'adaptor:into_iter:skip'],
     'C12': ['insert:', 'replace:', 'take:', 'extend:'],
-    'C15': ['clone:', 'drop-copy'],
+    'C15': ['clone:', 'drop-copy', 'clone_from:target-longer', 'clone_from:target-shorter'],
     'C19': ['fmt:set-debug', 'fmt:set-alt-debug', 'fmt:set-display'],
 }
 
@@ -193,7 +193,7 @@ plan('C10', jobs=lambda t: _mem_hist('C10', t, fam='track,copy,zst', miri_steps=
      level_note='For a forgotten drain only safety and well-formedness are demanded (the property promises nothing more).',
      design_ref='DESIGN.md section 3, C10')
 
-plan('C12', jobs=lambda t: _simple_hist('C12', t, fam='track,large'), rule=HIST_RULE + ' Keys of one class carry distinct tags, so the stored key object is identifiable; half of the inserting operations reuse a present class with a fresh tag.',
+plan('C12', jobs=lambda t: _simple_hist('C12', t, fam='track,large,nodrop'), rule=HIST_RULE + ' Keys of one class carry distinct tags, so the stored key object is identifiable; half of the inserting operations reuse a present class with a fresh tag.',
      required=rows('C12'),
      title='stored-key identity',
      technique='runtime monitoring: identity (tag + ledger id) sweep of the stored key object after every step, against a model that tracks which key object must be stored',
@@ -212,13 +212,13 @@ plan('C15', jobs=lambda t: _simple_hist('C15', t, fam='track,large,nodrop,copy',
 def _c19(tier):
     jobs = _simple_hist('C19', tier, fam='track,copy,raw,zst', miri=(150, 1500, True))
     jobs += [
-        J('C19', 'dbg/algebra', 'dbg', 'eng_algebra', '--universe 4 --no-small', 4, 1, covp='alg/'),
-        J('C19', 'rel/algebra', 'rel', 'eng_algebra', '--universe 4 --no-small', 4, 1, covp='alg/'),
+        J('C19', 'dbg/algebra', 'dbg', 'eng_algebra', '--universe 4', 4, 1, covp='alg/'),
+        J('C19', 'rel/algebra', 'rel', 'eng_algebra', '--universe 4', 4, 1, covp='alg/'),
     ]
     return jobs
 
 
-plan('C19', jobs=_c19, rule=HIST_RULE + ' A formatting probe renders the container or one iterator kind after j consumed items and compares with strings built independently. The set-algebra engine additionally renders union / intersection / difference / symmetric_difference / difference_ref at the first, middle and last-but-one consumption prefix on all 65 x 65 layout pairs over a 4-class universe.',
+plan('C19', jobs=_c19, rule=HIST_RULE + ' A formatting probe renders the container or one iterator kind after j consumed items and compares with strings built independently. The set-algebra engine additionally renders union / intersection / difference / symmetric_difference / difference_ref at the first, middle and last-but-one consumption prefix on all layout pairs over a 4-class universe for twelve capacity pairs (N = M, N > M and N < M).',
      required=rows('C19') + ['alg/union', 'alg/intersection', 'alg/difference', 'alg/symmetric_difference', 'alg/difference_ref'], floors={'iterator_debug_renderings': 1000}, assumptions=NATIVE_ASSUME + SAN_ASSUME,
      title='Debug / Display',
      technique='runtime monitoring: rendering oracle (expected strings built by hand and by std debug_map/debug_set from the independently observed entry sequence) at every consumption prefix of every iterator kind; Miri for the raw-slot Debug impls',
@@ -325,14 +325,17 @@ def _c18(tier):
         J('C18', 'rel/disjoint', 'rel', 'eng_disjoint', '--random %d' % q(tier, 8000, 1000000), 4, 1, exh=True, covp='dj/'),
         J('C18', 'miri/disjoint', 'miri', 'eng_disjoint', '--tiny --maxj %d' % q(tier, 2, 3), 8, 1, light=True, timeout=q(tier, 1500, 7200), covp='dj/'),
         J('C18', 'mirirel/disjoint', 'mirirel', 'eng_disjoint', '--tiny --maxj %d' % q(tier, 2, 3), 8, 1, light=True, timeout=q(tier, 1500, 7200), covp='dj/'),
+        # "uphold every other guarantee (ownership ...)" includes panic safety: a single-shot panic at every callback tick of insert_unchecked
+        J('C18', 'dbg/fault', 'dbg', 'eng_panic', '--fam track --only-op insert_unchecked --space 0,1,2,3,4 --big %d' % q(tier, 20000, 2000000), 2, 1, covp='pf/'),
+        J('C18', 'rel/fault', 'rel', 'eng_panic', '--fam track --only-op insert_unchecked --space 0,1,2,3,4 --big %d' % q(tier, 20000, 2000000), 2, 1, covp='pf/'),
     ]
     return jobs
 
 
 plan('C18', jobs=_c18,
-     rule=HIST_RULE + ' In these histories plain insert is replaced by insert_unchecked whenever the documented precondition holds (map not full, or key present); when it does not hold the call is skipped, never made. Second engine: get_disjoint_unchecked_mut on ALL pairwise-different key tuples of length 0..=4 over 5 keys on all slot layouts over a 4-class universe (N in {0,1,2,3,4,8}), compared position by position with get_mut.',
+     rule=HIST_RULE + ' In these histories plain insert is replaced by insert_unchecked whenever the documented precondition holds (map not full, or key present); when it does not hold the call is skipped, never made. Second engine: a single-shot panic injected at every user-callback tick of insert_unchecked (inside its contract) on all slot layouts over 4 classes for N in 0..=4 and on random larger states, survivors validated under the ledger. Third engine: get_disjoint_unchecked_mut on ALL pairwise-different key tuples of length 0..=4 over 5 keys on all slot layouts over a 4-class universe (N in {0,1,2,3,4,8}), compared position by position with get_mut.',
      required=['map/insert_unchecked:hit-first', 'map/insert_unchecked:hit-last', 'map/insert_unchecked:miss:partial', 'map/insert_unchecked:hit-middle:full',
-               'dj/get_disjoint_unchecked_mut:J=2', 'dj/get_disjoint_unchecked_mut:J=4'],
+               'dj/get_disjoint_unchecked_mut:J=2', 'dj/get_disjoint_unchecked_mut:J=4', 'pf/fault:insert_unchecked:K::eq', 'pf/fault:insert_unchecked:K::drop', 'pf/fault:insert_unchecked:V::drop'],
      exhaustive_subspace='get_disjoint_unchecked_mut: all slot layouts over a 4-class universe x all pairwise-different key tuples of length 0..=4',
      assumptions=NATIVE_ASSUME + SAN_ASSUME + ['the harness calls the unsafe functions only inside their documented precondition; outside it any behaviour is the caller\'s fault'],
      title='unsafe fast paths inside their contract',
@@ -519,12 +522,13 @@ def _c06(tier):
 
 
 plan('C06', jobs=_c06,
-     rule='A case is one allocation window: one public operation executed between two reads of a counting global allocator (alloc, alloc_zeroed, realloc, dealloc), with nothing else in between. 56 window kinds cover construction (new, default, From<[_;N]>, collect), every Map operation (insert*, lookups, indexing, removals, retain, clear, drain, all borrowing and consuming iterators, the entry API, get_disjoint_mut, clone, ==, Debug/Display of the map and of its iterators into a fixed-buffer sink, drop) and every Set operation (incl. all set-algebra iterators walked with size_hint/count, predicates, `-`, extend by value and by reference), in random histories over element types that cannot allocate (u32, 128-byte array key, 512-byte array value, zero-sized), capacities 0..16, with micromap built with default features AND with the std feature. Operations expected to panic are never put in a window. In addition every reference handed out is range-checked against the container value. Distinct by (history fingerprint); every window is non-trivial.',
+     rule='A case is one allocation window: one public operation executed between two reads of a counting global allocator (alloc, alloc_zeroed, realloc, dealloc), with nothing else in between. 56 window kinds cover construction (new, default, From<[_;N]>, collect), every Map operation (insert*, lookups, indexing, removals, retain, clear, drain, all borrowing and consuming iterators, the entry API, get_disjoint_mut, clone, ==, Debug/Display of the map and of its iterators into a fixed-buffer sink, drop) and every Set operation (incl. all set-algebra iterators walked with size_hint/count, predicates, `-`, extend by value and by reference), in random histories over element types that cannot allocate (u32, 128-byte array key, 512-byte array value, zero-sized), capacities 0..64 incl. containers larger than a page (8, 10 and 16 KiB), with micromap built with default features AND with the std feature. Operations expected to panic are never put in a window. In addition every reference handed out is range-checked against the container value. Distinct by (history fingerprint); every window is non-trivial.',
      required=['Map::new', 'Map::default', 'Map::from(array)', 'Map::from_iter(array)', 'insert', 'insert_key_value', 'checked_insert', 'get', 'get_mut', 'get_key_value', 'contains_key', 'index',
                'index_mut', 'remove', 'remove_entry', 'retain', 'clear', 'drain', 'iter', 'iter_mut', 'keys', 'values', 'values_mut', 'into_iter', 'into_keys', 'into_values', 'entry.or_insert',
                'entry.or_insert_with', 'entry.and_modify.or_default', 'entry.occupied|vacant', 'get_disjoint_mut', 'clone', 'eq', 'fmt', 'drop(map)', 'Set::new', 'Set::from(array)', 'Set::insert',
                'Set::replace', 'Set::contains', 'Set::get', 'Set::remove', 'Set::take', 'Set::retain', 'Set::clear', 'Set::drain', 'Set::extend', 'Set::iter', 'Set::into_iter', 'Set::union',
                'Set::intersection', 'Set::difference', 'Set::symmetric_difference', 'Set::predicates', 'Set::sub', 'Set::clone+eq', 'Set::fmt', 'zst'],
+     
      floors={'allocator_self_checks': 1, 'references_range_checked': 1000},
      assumptions=['the counting allocator is the process-wide #[global_allocator]; its self-check (a window around nothing reads 0, around Box::new reads >= 1) runs first and its failure makes the run inconclusive',
                   'element types, closures and the formatting sink used inside windows do not allocate',
